@@ -109,6 +109,50 @@ def replay_file(module, path):
     return case, res
 
 
+def run_jobs(jobs, nproc, cap):
+    """one fresh spawned process per shard, at most nproc at a time; a worker that dies without reporting (killed from
+    outside, out of memory) is re-run once, then reported as a harness error -- never waited for"""
+    from multiprocessing import connection
+    ctx = mp.get_context("spawn")
+    pending = list(enumerate(jobs))
+    running = {}
+    results = [None] * len(jobs)
+    attempts = [0] * len(jobs)
+    deadline = time.time() + cap
+    while pending or running:
+        while pending and len(running) < nproc:
+            i, job = pending.pop(0)
+            r, w = ctx.Pipe(duplex=False)
+            p = ctx.Process(target=core.shard_entry, args=(job, w))
+            p.start()
+            w.close()
+            running[i] = (p, r, job)
+        ready = connection.wait([r for (_, r, _) in running.values()], timeout=1.0)
+        for i, (p, r, job) in list(running.items()):
+            if r not in ready:
+                continue
+            try:
+                out = r.recv()
+            except (EOFError, OSError):
+                out = None
+            p.join(10)
+            r.close()
+            del running[i]
+            if out is None:
+                attempts[i] += 1
+                if attempts[i] < 2:
+                    log("note: worker of shard %s died (exit code %s); re-running it" % (job[1], p.exitcode))
+                    pending.append((i, job))
+                else:
+                    out = {"shard": job[1], "seed": job[2], "error": "worker died twice (exit code %s)" % p.exitcode}
+            results[i] = out
+        if time.time() > deadline:
+            for (p, r, job) in running.values():
+                p.kill()
+            return None
+    return results
+
+
 def check(pid, tier):
     t0 = time.time()
     seed = int(os.environ.get("VERIF_SEED", "0") or 0)
@@ -160,15 +204,10 @@ def check(pid, tier):
     shard_info = []
     harness_errors = []
     cap = getattr(module, "WALL_CAP", {}).get(tier, 1500 if tier == "quick" else 7200)
-    ctx = mp.get_context("spawn")
-    with ctx.Pool(processes=min(NPROC, max(1, len(jobs))), maxtasksperchild=1) as pool:
-        async_res = pool.map_async(core.shard_worker, jobs, chunksize=1)
-        try:
-            results = async_res.get(timeout=cap)
-        except mp.TimeoutError:
-            pool.terminate()
-            log("HARNESS: wall-clock safety cap of %ds reached (inconclusive, not a violation)" % cap)
-            return 2
+    results = run_jobs(jobs, min(NPROC, max(1, len(jobs))), cap)
+    if results is None:
+        log("HARNESS: wall-clock safety cap of %ds reached (inconclusive, not a violation)" % cap)
+        return 2
     for out in results:
         if "error" in out:
             harness_errors.append((out["shard"], out["error"]))
